@@ -1,8 +1,9 @@
 CONSTANTS
   Runs = {"A", "B"}
+  Shared = {"A2"}
   MaxRows = 0
   MaxSaves = 0
-  AppendInPlace = FALSE
+  AppendInPlace = "prefix"
   Crashes = TRUE
   CrossCheck = FALSE
   SqlDeleteInTxn = TRUE
